@@ -1,7 +1,7 @@
 #!/bin/sh
 # usage: scripts/run_seed.sh <seed-dir> <PROP> [tier] [--jobs filter]
 # applies seeded/<id>/patch.diff to /repo, runs the check, restores /repo. Prints the verdict.
-SEED=$1; PROP=$2; TIER=${3:-quick}; shift 3 2>/dev/null
+SEED=$(cd "$1" && pwd); PROP=$2; TIER=${3:-quick}; shift 3 2>/dev/null
 cd /repo || exit 2
 if [ -n "$(git status --porcelain --untracked-files=no)" ]; then echo "/repo not clean"; exit 2; fi
 git apply "$SEED/patch.diff" || { echo "patch does not apply"; exit 2; }
